@@ -18,6 +18,10 @@ class NoResult(Exception):
     pass
 
 
+class Unspecified(Exception):
+    """The specification's schema-level matching rule and the statement's per-datum wording disagree: either outcome is accepted."""
+
+
 class Ambiguous(Exception):
     """The statement does not decide this pairing (alias spelled in another namespace than the writer's type)."""
 
@@ -126,12 +130,15 @@ class Resolver:
         if wk != rk:
             raise NoResult(f"{wk} cannot be read as {rk}")
         if wk in ("array", "map"):
-            if not self.matches(w, r):
-                raise NoResult("item/value types do not match")
+            # the statement speaks about "the datum at hand": item / value types that do not match as schemas matter only
+            # through the items actually present; when none of them fails the outcome is left open (Unspecified)
+            strict_mismatch = not self.matches(w, r)
             res = [] if wk == "array" else {}
             while True:
                 c, pos = B.dec_long(buf, pos)
                 if c == 0:
+                    if strict_mismatch:
+                        raise Unspecified("item/value types do not match as schemas, but no item of the datum is affected")
                     return res, pos
                 if c < 0:
                     c = -c
